@@ -79,6 +79,9 @@ struct kit_v_bytecode_0 { KIT_HDR KIT_M(bytecode) m; }; static void *kit_newv_by
 #ifndef KIT_MAX_bytecode
 #define KIT_MAX_bytecode 48
 #endif
+/* one large stack layout (96 words) for harnesses that need head-room above the 64-word stack check margin */
+struct kit_v_stack_96 { KIT_HDR KIT_M(stack) m; sexp tail[96]; };
+static void *kit_newv_stack_96(void) KIT_ZNEW(kit_v_stack_96)
 #define KIT_VCASE(k, P) case P: if (P <= KIT_MAX_##k) return kit_newv_##k##_##P(); break;
 #ifdef KIT_NATIVE
 #define KIT_BOUND(k, P)
@@ -122,6 +125,7 @@ static void *kit_typed_object(size_t size, sexp_uint_t tag) {
       return kit_newv_vector((size - sexp_sizeof(vector)) / sizeof(sexp));
     break;
   case SEXP_STACK:
+    if (size == sexp_sizeof(stack) + 96 * sizeof(sexp)) return kit_newv_stack_96();
     if (size >= sexp_sizeof(stack) && ((size - sexp_sizeof(stack)) % sizeof(sexp)) == 0)
       return kit_newv_stack((size - sexp_sizeof(stack)) / sizeof(sexp));
     break;
